@@ -199,6 +199,11 @@ func dropGlobalWrites(t *Term) *Term {
 					changed = true
 					continue
 				}
+				// a write-only field (statistics) is not part of the behaviour
+				if w.Op == "w" && w.Args[0].Op == "fld" && strings.HasPrefix(w.Args[0].S, "wo:") {
+					changed = true
+					continue
+				}
 				keep = append(keep, w)
 			}
 			if changed {
